@@ -381,6 +381,28 @@ var c20pool = []c20val{
 		return starlark.NewList([]starlark.Value{c20newMsg(c20msg, "f_string", "m0"), c20newMsg(c20msg, "f_string", "m1")})
 	}, "[Msg,Msg]"},
 	{func() starlark.Value {
+		d := starlark.NewDict(1)
+		d.SetKey(starlark.String("s"), starlark.String("only-s"))
+		return d
+	}, "{s}"},
+	{func() starlark.Value {
+		d := starlark.NewDict(1)
+		d.SetKey(starlark.String("n"), starlark.MakeInt(7))
+		return d
+	}, "{n}"},
+	{func() starlark.Value {
+		d := starlark.NewDict(1)
+		d.SetKey(starlark.String("r"), starlark.NewList([]starlark.Value{starlark.MakeInt(1), starlark.MakeInt(2)}))
+		return d
+	}, "{r}"},
+	{func() starlark.Value { return starlark.NewDict(0) }, "{}"},
+	{func() starlark.Value {
+		d := starlark.NewDict(2)
+		d.SetKey(starlark.String("s"), starlark.String("ok-first"))
+		d.SetKey(starlark.String("n"), starlark.String("ill-typed-second"))
+		return d
+	}, "{s,bad n}"},
+	{func() starlark.Value {
 		d := starlark.NewDict(2)
 		d.SetKey(starlark.MakeInt(-5), starlark.Float(0.5))
 		d.SetKey(bigv("2147483647"), starlark.MakeInt(3))
@@ -436,7 +458,7 @@ func c20valuesFor(field string) []int {
 	}
 	switch {
 	case field == "sub":
-		return byDesc("dict-sub")
+		return byDesc("dict-sub", "{s}", "{n}", "{r}", "{}", "{s,bad n}", "Sub(s=..)")
 	case field == "r_sub":
 		return byDesc("[sub-dicts]", "[Sub,Sub]", "[Msg,Sub]")
 	case field == "m_isub":
@@ -990,8 +1012,22 @@ func sameScalar(kind string, got, want starlark.Value) bool {
 	case "msg:Sub", "msg:Msg":
 		g, ok := got.(*starproto.Message)
 		w, ok2 := want.(*starproto.Message)
+		if wd, isDict := want.(*starlark.Dict); isDict {
+			// built from a dict: the field must hold exactly the message the
+			// constructor builds from that dict (nothing kept from what the
+			// field held before)
+			md := c20sub
+			if kind == "msg:Msg" {
+				md = c20msg
+			}
+			fresh, err := starlark.Call(&starlark.Thread{Name: "expect"}, starproto.MessageDescriptor{Desc: md}, starlark.Tuple{wd}, nil)
+			if err != nil {
+				return true // the constructor refuses this dict: nothing to compare with
+			}
+			w, ok2 = fresh.(*starproto.Message), true
+		}
 		if !ok2 {
-			return true // built from a dict: nothing exact to compare with
+			return true
 		}
 		if !ok {
 			return false
